@@ -4,7 +4,7 @@ P=$1; shift
 cd /repo || exit 9
 if ! git diff --quiet; then echo "repo dirty"; exit 9; fi
 if ! git apply --check "$P" 2>/dev/null; then
-  if git apply --3way "$P" >/dev/null 2>&1; then echo "(applied with 3way)"; git reset -q; else echo "PATCH DOES NOT APPLY: $P"; git checkout -- . ; exit 8; fi
+  if git apply --3way "$P" >/dev/null 2>&1; then echo "(applied with 3way)"; git reset -q; else echo "PATCH DOES NOT APPLY: $P"; git reset -q --hard HEAD; exit 8; fi
 else git apply "$P"; fi
 for id in "$@"; do
   cd /verif && timeout 1800 python3-vt run.py $id --tier ${TIER:-quick} > /tmp/mut_$id.log 2>&1; rc=$?
